@@ -133,7 +133,9 @@ class SeqInitLoop(LoopContract):
         eff, ops = env.vars.get("eff"), env.vars["self"].fields.get("effect_ops")
         ok = isinstance(eff, AbsAcc) and isinstance(ops, AbsAcc) and not broke
         if ok:
-            if kind == "Empty":
+            if kind == "Tree":
+                ok = False   # must have raised
+            elif kind == "Empty":
                 ok = eff.tail == [] and ops.tail == []
             elif kind in ("NOP", "Assignment"):
                 ok = len(eff.tail) == 1 and eff.tail[0] is elem and ops.tail == []
@@ -172,6 +174,10 @@ def gen_sequence(loader, check, replay_on=True):
         check.path_obligations(p, pi)
         seen.add(p.outcome)
         if p.outcome == "loop-step":
+            continue
+        if p.outcome == "raise" and getattr(p.ctx, "loop_kind", None) == ("Sequence.__init__", "Tree"):
+            # the result of a grammar rule without handler is rejected, not dropped (C15)
+            check.ob("Sequence.__init__#unhandled-production-is-rejected", pi, p.ctx.pc, p.value.cls is NotImplementedError)
             continue
         check.ob("Sequence.__init__#total", pi, p.ctx.pc, p.outcome == "return", detail="" if p.outcome == "return" else f"raises {p.value!r}")
         if p.outcome != "return":
